@@ -900,6 +900,11 @@ pub fn corner_extras() -> Vec<SysSpec> {
             });
         }
     }
+    // sign extension of a 1-bit operand (a Bool in the solver's terms) that decides where the state goes:
+    // decrement when the input is set; the sign bits of a wider register
+    out.push(mk("X-sext1", vec![("b1", 1)], vec![st("a2", 2, Some(l(2, 0)), Some(b(Bin::Add, a(), T::SExt(1, Box::new(f())))))], vec![b(Bin::Eq, a(), l(2, 3))], vec![]));
+    out.push(mk("X-sext1", vec![("b1", 1)], vec![st("a2", 2, Some(l(2, 0)), Some(b(Bin::Add, a(), T::SExt(1, Box::new(f())))))], vec![b(Bin::Eq, a(), l(2, 2))], vec![]));
+    out.push(mk("X-sext1", vec![("b1", 1)], vec![st("a2", 2, Some(l(2, 1)), Some(b(Bin::Xor, a(), T::SExt(1, Box::new(T::Slice(1, 1, Box::new(a())))))))], vec![b(Bin::Eq, T::SExt(1, Box::new(b(Bin::And, f(), T::Slice(0, 0, Box::new(a()))))), l(2, 3))], vec![]));
     // a constraint that is the literal false (alone, after a satisfiable one, as `x and not x`): the system has no
     // execution at all, whatever the bad states say
     out.push(mk("X-falseconstraint", vec![("b1", 1)], vec![st("a2", 2, Some(l(2, 0)), Some(inc(a())))], vec![b(Bin::Eq, a(), l(2, 1))], vec![l(1, 0)]));
